@@ -153,6 +153,8 @@ def run_history(lazy: bool, ldefs: dict[str, str], rdefs: dict[str, str], ops: l
 				raise AssertionError(name)
 		except ValueError:
 			r = 'ValueError'
+		except Exception as e:  # noqa: BLE001 - any other exception is an observable outcome (the statement allows ValueError only), not a fault of the twin
+			r = type(e).__name__
 		if name == 'bind' and lazy and op[2] in model[tgt].b:
 			# bind on an already registered symbol of a LazyDI: the statement does not say (the by-name registration may be shadowed); follow the code
 			if r == 'ok':
